@@ -23,6 +23,7 @@ import (
 	"github.com/apmckinlay/gsuneido/util/cksum"
 	"github.com/apmckinlay/gsuneido/util/hacks"
 	"github.com/apmckinlay/gsuneido/util/str"
+	"github.com/apmckinlay/gsuneido/util/verif"
 )
 
 type tran struct {
@@ -286,6 +287,9 @@ func (t *UpdateTran) Commit() {
 func (t *UpdateTran) commit() int {
 	t.db.UpdateState(func(state *DbState) {
 		state.Meta = t.meta.LayeredOnto(state.Meta)
+		if verif.On {
+			verif.Event("Commit", "tran", t)
+		}
 	})
 	return t.num()
 }
